@@ -28,7 +28,13 @@ Definition chk_coldef (b : bytes) (cd : coldef) (fl : option (option bytes)) :=
    | Some (d, rest) => (if list_eq_dec N.eq_dec (cd_name d) (cd_name cd) then true else false) && (cd_charset d =? cd_charset cd) &&
                        (cd_type d =? cd_type cd) && (cd_length d =? cd_length cd) && (cd_flags d =? cd_flags cd) &&
                        (if list_eq_dec N.eq_dec (cd_table d) (cd_table cd) then true else false) &&
-                       match fl with None => match rest with [] => true | _ => false end | _ => true end
+                       match fl with
+                       | None => match rest with [] => true | _ => false end
+                       | Some dv => match read_str_len rest with      (* a client reads ONE length-encoded string: the default *)
+                                    | Some (v, []) => if list_eq_dec N.eq_dec v (match dv with Some x => x | None => [] end) then true else false
+                                    | _ => false
+                                    end
+                       end
    | None => false end).
 Definition chk_hs (b : bytes) (plug : bool) (capsw cs : N) (version : bytes) (cid : N) (auth : bytes) (status : N) (plugin : bytes) :=
   (beq b (enc_handshake (mk_caps true true plug false) capsw cs version cid auth status plugin),
@@ -69,7 +75,7 @@ def cases(rng, n):
         ty = rng.choice(list(ColumnType))
         ln = rng.choice([0, 256, 2 ** 32 - 1])
         flags = rng.choice([0, 1, 4096 | 1])
-        fieldlist = rng.choice([None, (None,), ("dflt",), ("",)])
+        fieldlist = rng.choice([None, (None,), ("dflt",), ("",), ("gr\u00f6\u00dfe",), ("x" * 300,)])
         kw = dict(server_charset=CharacterSet.utf8mb4, table=table, name=name, character_set=cs, column_length=ln, column_type=ty,
                   flags=ColumnDefinition(flags))
         if fieldlist is not None:
